@@ -92,6 +92,8 @@ def with_restores(calls, rng, every_path):
         ops.append({"op": "restore", "via": v, "lie": False})
         ops.append({"op": "restore", "via": v, "lie": True})               # overstated aggregate figures
         ops.append({"op": "restore", "via": v, "lie": True, "low": True})  # understated (zero) figures
+        # ONE figure falsified, the other two true (a right count with wrong quantities, and so on)
+        ops.append({"op": "restore", "via": v, "lie": True, "only": rng.choice(["vis", "hid", "cnt"]), "low": rng.chance(1, 3)})
     # restore points: at the end and at a random earlier point
     k = rng.below(len(out) + 1)
     return out[:k] + ops[:6] + out[k:] + ops
